@@ -209,7 +209,7 @@ func drawSize(t *rapid.T) int {
 	}
 }
 
-var opKinds = []string{"put", "put", "put", "putx", "putx", "get", "get", "getat", "getattr", "has", "hasdir", "delete", "delete", "touch", "keys",
+var opKinds = []string{"put", "put", "put", "putx", "putx", "get", "get", "getat", "getattr", "has", "hasdir", "deldir", "delete", "delete", "touch", "keys",
 	"list", "list", "list", "list", "list", "list", "abandon", "abandon"}
 
 func drawCase(t *rapid.T) caseT {
@@ -238,7 +238,7 @@ func drawCase(t *rapid.T) caseT {
 			op.Key = rapid.IntRange(0, len(c.Keys)-1).Draw(t, "key")
 			op.Off = int64(rapid.IntRange(0, 210).Draw(t, "off"))
 			op.Len = rapid.IntRange(0, 220).Draw(t, "len")
-		case "hasdir":
+		case "hasdir", "deldir":
 			parts := strings.Split(rapid.SampledFrom(c.Keys).Draw(t, "dkey"), "/")
 			if len(parts) == 1 {
 				op.Kind = "has"
@@ -446,6 +446,28 @@ func (e *executor) step(op opT) error {
 		if err != nil || ok {
 			return fmt.Errorf("Has(%q) (a directory name, never written as a key) = %v, %v; want false, nil", op.Dir, ok, err)
 		}
+		return nil
+	case "deldir":
+		// Delete of an absent key that names an EMPTY directory left behind by earlier deletes: like any
+		// delete of an absent key it reports success; keys written below it afterwards must work as ever
+		for k := range e.m.objs {
+			if strings.HasPrefix(k, op.Dir+"/") {
+				return nil // not empty: not generated (a file system refuses, an object store has no such object)
+			}
+		}
+		for d := range e.m.dirs {
+			if strings.HasPrefix(d, "/"+op.Dir+"/") {
+				return nil // holds (empty) sub-directories on disk
+			}
+		}
+		if !e.m.dirs["/"+op.Dir] {
+			return nil // never created
+		}
+		e.count("delete_empty_dir_name")
+		if err := e.s.Delete(e.ctx, op.Dir); err != nil {
+			return fmt.Errorf("Delete(%q) of an absent key (an empty directory name): %v", op.Dir, err)
+		}
+		delete(e.m.dirs, "/"+op.Dir)
 		return nil
 	case "delete":
 		_, present := e.m.objs[key]
